@@ -181,6 +181,17 @@ from contracts.etree_model import ETreeMixin
 
 
 OVERAPPROX = "c05!overapprox"
+_MARK_FN = {}
+_mark_ids = __import__("itertools").count()
+
+
+def marker(kind):
+    """A fresh atom `kind(k)` of an uninterpreted predicate: unconstrained (assuming it proves nothing) and not ground-evaluable,
+    so neither the solver's model nor random instantiation turns a path that carries it into a counter-example."""
+    f = _MARK_FN.get(kind)
+    if f is None:
+        f = _MARK_FN[kind] = z3.Function(kind, z3.IntSort(), z3.BoolSort())
+    return f(z3.IntVal(next(_mark_ids)))
 
 
 class SerExecutor(ETreeMixin, Executor):
@@ -189,7 +200,7 @@ class SerExecutor(ETreeMixin, Executor):
     # invariant, an abstracted expression, a merged state) assumes a fresh Bool named c05!overapprox...: proofs are
     # unaffected, a `sat` answer on such a path is not a counter-example (solve.SAT_UNTRUSTED -> `unknown` -> native replay).
     def mark(self, st):
-        st.assume(z3.Bool(fresh_name(OVERAPPROX)))
+        st.assume(marker(OVERAPPROX))
         return st
 
     def exc_any(self, st, site, also=()):
@@ -502,6 +513,16 @@ class SerExecutor(ETreeMixin, Executor):
         return None
 
     def contains(self, st, container, item, node):
+        if isinstance(item, (PH, VType)) or (isinstance(item, VFunc) and item.how == "ext"):
+            items = self.concrete_items(st, container)
+            if items is not None:
+                terms = []
+                for x in items:
+                    r = self._type_identity(item, x)
+                    if r is None:
+                        r = self._identity(st, item, x, node)
+                    terms.append(r if r is not None else F)
+                return [(st, VBool(sp.norm(z3.Or(terms + [F]))))]
         if isinstance(container, PV):
             tt = container.t
             if isinstance(item, VStr):
@@ -586,6 +607,9 @@ class SerExecutor(ETreeMixin, Executor):
             i = z3.Int("i!units")
             st.assume(z3.ForAll([i], sp.SEROK(UNIT(tt, i)), patterns=[UNIT(tt, i)]))
             return [(st, VSeq(n, lambda j, tt=tt: PV(UNIT(tt, j)), "unit"))]
+        if name == "getvalue" and not args:
+            s2 = self.fork_raise(st, sp.norm(z3.Not(V.is_BytesIO(tt))), "AttributeError")
+            return [] if s2 is None else [(s2, PTok("bin", sp.norm(V.iop(tt))))]     # whole payload, position untouched
         if name in ("tell", "seek", "read"):
             s2 = self.fork_raise(st, sp.norm(z3.Not(V.is_BytesIO(tt))), "AttributeError")
             if s2 is None:
@@ -709,6 +733,8 @@ class SerExecutor(ETreeMixin, Executor):
             return ("kv", it.a)
         if isinstance(it, PTok) and it.what == "clsfields":
             return ("clsfields", it.a)
+        if isinstance(it, PTok) and it.what == "nameset":
+            return ("nameset", it.a)
         if isinstance(it, VSeq):
             return ("seq", it)
         return None
@@ -728,6 +754,9 @@ class SerExecutor(ETreeMixin, Executor):
                     self.unsupported(n, "comprehension iterable of mixed kinds")
                 return None
             handled = True
+            if view[0] == "nameset":
+                outs.extend(self._comp_over_nameset(n, g, s2, view[1], kind))
+                continue
             if g.ifs:
                 self.unsupported(n, "filtered comprehension over a symbolic collection")
             outs.extend(self._comp_over(n, g, s2, view, kind))
@@ -793,6 +822,48 @@ class SerExecutor(ETreeMixin, Executor):
         self.add_vc("comp-elementwise", "list-elements" if what == "list" else "mapping-entries", s_el.pc, goal,
                     note=f"{self.loc(n)} element expression differs from the element function of the specified map", loc=self.loc(n))
         return [(st, result)]
+
+    def _comp_over_nameset(self, n, g, st, cn, kind):
+        """{name: E(name) for name in <field names of cn> [if C(name)]}: a keyword map characterised pointwise."""
+        from pyvc.state import Frame
+        if kind != "dict":
+            self.unsupported(n, "non-dict comprehension over a set of field names")
+        nm = z3.String(fresh_name("fname"))
+        body = st.fork()
+        body.frames.append(Frame({}, len(body.frames) - 1, body.frame.fnode))
+        body.assume(sp.MEMS(sp.FIELDS(cn), nm))
+        live = self.assign(g.target, VStr(nm), body)
+        if len(live) != 1:
+            self.unsupported(n, "comprehension target")
+        cur, conds = live[0], []
+        for cond in g.ifs:
+            r = self.ev(cond, cur)
+            if len(r) != 1:
+                self.unsupported(n, "forking filter of a comprehension over field names")
+            cur, cv = r[0]
+            t = self.truth(cur, cv).t
+            conds.append(t)
+            cur.assume(t)
+        rk = self.ev(n.key, cur)
+        if len(rk) != 1 or not isinstance(rk[0][1], VStr) or not rk[0][1].t.eq(nm):
+            self.unsupported(n, "key of a comprehension over field names is not the name itself")
+        rv = self.ev(n.value, rk[0][0])
+        if len(rv) != 1:
+            self.unsupported(n, "forking value of a comprehension over field names")
+        vt = self.to_pv(rv[0][0], rv[0][1])
+        if vt is None:
+            self.unsupported(n, "value of a comprehension over field names")
+        cond = sp.norm(z3.And(conds + [T]))
+        has = z3.Const(fresh_name("has"), z3.ArraySort(sp.S, sp.B))
+        val = z3.Const(fresh_name("val"), z3.ArraySort(sp.S, V))
+        hook = getattr(self.contract, "nameset_comp", None) if self.contract is not None else None
+        if hook is None or not hook(self, st, cn, nm, cond, sp.norm(vt), has, val):
+            q = z3.String("q!kwc")
+            sub = lambda e: z3.substitute(e, (nm, q))
+            st.assume(z3.ForAll([q], z3.And(z3.Select(has, q) == z3.And(sp.MEMS(sp.FIELDS(cn), q), sub(cond)),
+                                            z3.Implies(z3.Select(has, q), z3.Select(val, q) == sub(vt))), patterns=[z3.Select(has, q)]))
+        ref = st.alloc(HeapObj("pvmap", (has, val)), self.refs)
+        return [(st, VRef(ref))]
 
     def _comp_over_seq(self, n, g, st, seq, kind):
         """Comprehension over an index-based symbolic sequence (CLI result lists): result is the index-wise map."""
